@@ -16,6 +16,7 @@ const VAL_FORMS = {
   negNum: () => ['-1', 'number'], template: () => ['`t${N0}`', 'string'], ident: () => ['V0', 'object'], identStr: () => ['S0', 'string'],
   call: () => ['mk0()', 'object'], objLit: () => ['{ x: 1, y: [2] }', 'object'], arrLit: () => ['[1, "two"]', 'unknown[]'], member: () => ['H.v', 'object'],
   cond: () => ['N0 > 0 ? "pos" : "neg"', 'string'], newExpr: () => ['new Date(0)', 'Date'], undef: () => ['undefined', 'string'],
+  jsxElement: () => ['<i class="x">{N0}</i>', 'object'], jsxFragment: () => ['<>frag</>', 'object'], jsxInObject: () => ['{ icon: <b /> }', 'object'],
 };
 // the same, reading module constants that are declared AFTER the defineComponent call: a static non-literal default sits
 // behind a factory, so it is only read when Vue asks for it (only generated for the static form; mergeDefaults reads eagerly)
@@ -41,7 +42,7 @@ function buildCase(rng) {
   const dyn = rng.pick(['static', 'static', 'static', 'identifier', 'spread', 'computedIdentKey', 'computedCallKey', 'empty']);
   for (const k of keys) {
     const fnTyped = rng.bool(0.35);
-    const form = rng.pick(['none', 'keyvalue', 'keyvalue', 'keyvalue', 'getter', 'method', 'asyncMethod', 'shorthand']);
+    const form = rng.pick(['none', 'keyvalue', 'keyvalue', 'keyvalue', 'getter', 'method', 'asyncMethod', 'shorthand', 'generatorMethod']);
     let tsType = 'string';
     let entry = null;
     const spelling = rng.pick(['same', 'same', 'alt']);
@@ -60,6 +61,9 @@ function buildCase(rng) {
       if (isComputedLit) continue;
       tsType = fnTyped ? '() => string' : 'object';
       entry = fnTyped ? `get ${keySrc}() { return helperFn; }` : `get ${keySrc}() { return V0; }`; feat.push(fnTyped ? 'getterFn' : 'getter');
+    } else if (form === 'generatorMethod') {
+      tsType = '() => Generator<number>';
+      entry = `${rng.bool(0.3) ? 'async ' : ''}*${keySrc}() { yield 1; yield "two-${k.key}"; }`; if (entry.startsWith('async')) tsType = '() => AsyncGenerator<number>'; feat.push(entry.startsWith('async') ? 'asyncGeneratorMethod' : 'generatorMethod');
     } else if (form === 'method' || form === 'asyncMethod') {
       tsType = form === 'asyncMethod' ? '() => Promise<string>' : '() => string';
       entry = `${form === 'asyncMethod' ? 'async ' : ''}${keySrc}() { return "ret-method-${k.key}"; }`; feat.push(form);
@@ -124,6 +128,8 @@ function same(a, b) {
     let ra, rb;
     try { ra = a(); rb = b(); } catch { return false; }
     if (ra instanceof Promise && rb instanceof Promise) return true;
+    // generators: the same sequence of values
+    if (ra && rb && typeof ra.next === 'function' && typeof rb.next === 'function') { if (typeof ra[Symbol.asyncIterator] === 'function' || typeof rb[Symbol.asyncIterator] === 'function') return typeof ra[Symbol.asyncIterator] === typeof rb[Symbol.asyncIterator]; return JSON.stringify([...ra]) === JSON.stringify([...rb]); }
     return same(ra, rb);
   }
   if (a instanceof Date && b instanceof Date) return a.getTime() === b.getTime();
@@ -139,6 +145,8 @@ export async function check(group, records) {
   const base = { gid: group.gid, vid: v.vid, feature: group.feature, nontrivial: true };
   if (!rec || rec.status !== 'ok') return [inconclusive({ ...base, reason: `transform status ${rec && rec.status}` })];
   if (rec.n_err > 0) return [violated({ ...base, oracle: 'no diagnostic', sig: `C18/unexpected-diagnostic/${rec.diags[0].msg.replace(/\W+/g, '_').slice(0, 40)}`, detail: rec.diags })];
+  // an output that is not a program delivers nothing to the runtime (the input did parse)
+  if (rec.exec == null && /does not parse/.test(String(rec.exec_declined))) return [violated({ ...base, oracle: 'the output module can be loaded', sig: `C18/output-does-not-parse`, detail: short(rec.exec_declined, 200) })];
   if (rec.exec == null) return [inconclusive({ ...base, reason: `exec declined: ${rec.exec_declined}` })];
   const { rt, ns, error, cleanup } = await loadModule(rec.exec, { globals: {}, modules: {} });
   try {
